@@ -170,8 +170,10 @@ def run(ctx, chk):
             chunk = cs[0].res
             sh = pa.calls(seth)
             mc = [e for e in pa.events if e.kind == "call" and e.callee == "memcpy"]
+            empty = pa.st.eqc.get(("arg", 2)) == 0 or pa.st.hi.get(("arg", 2), 1) == 0
             ok = cs[0].callee == ctor and len(sh) == 1 and sh[0].args[0] == chunk and sh[0].args[2] == ("arg", 2) and \
-                len(mc) == 1 and mc[0].args[0] == sh[0].args[1] and mc[0].args[1] == ("arg", 1) and mc[0].args[2] == ("arg", 2)
+                ((len(mc) == 1 and mc[0].args[0] == sh[0].args[1] and mc[0].args[1] == ("arg", 1) and mc[0].args[2] == ("arg", 2)) or
+                 (not mc and empty))
             chk.ob("C02.wiring", "%s -> %s: definite chunk holding a copy of exactly the payload" % (field, fn), ok, where, fn=fn, key="chunk:%s:%d" % (field, k))
             adds = pa.calls(addc)
             wrong = [e for e in pa.events if e.kind == "call" and e.callee in ("cbor_bytestring_add_chunk", "cbor_string_add_chunk") and e.callee != addc]
